@@ -292,7 +292,9 @@ class Gen:
         fields = []
         for _ in range(n):
             x = self.r.random()
-            if x < self.cfg["p_bf_zero"] and fields:
+            opens_after_plain = not fields and rec.fields and rec.fields[-1].bits is None and rec.fields[-1].inline is None
+            if (x < self.cfg["p_bf_zero"] and fields) or (opens_after_plain and self.r.random() < self.cfg.get("p_bf_zero_open", 0.3)):
+                # a zero-width separator may also OPEN a run (after a plain member): it then pushes the run to the next boundary of its type
                 base = self.int_type()
                 fields.append(Field(None, base, bits=0))
                 continue
